@@ -5,6 +5,7 @@ mod gen;
 mod ic;
 mod run;
 mod span;
+mod strspan;
 mod state;
 mod wire;
 
@@ -110,6 +111,27 @@ fn main() {
                             }
                         }
                     },
+                }
+                writeln!(out, "{s}").unwrap();
+            }
+        }
+        "strspan" => {
+            for line in input.lines() {
+                let line = line.unwrap();
+                let mut parts = line.split(';');
+                let kind = parts.next().unwrap_or("");
+                let ops: Vec<&str> = parts.collect();
+                let mut s = String::new();
+                match strspan::run_strspan(kind, &ops) {
+                    None => s.push_str("unknown-entry"),
+                    Some(obs) => {
+                        for (i, o) in obs.iter().enumerate() {
+                            if i > 0 {
+                                s.push(';');
+                            }
+                            o.show(&mut s);
+                        }
+                    }
                 }
                 writeln!(out, "{s}").unwrap();
             }
